@@ -255,12 +255,12 @@ def patterns(k, nq, level):
         if level >= 1:
             out += [(R, R), (R, N), (N, R), (F, R), (R, F)]
         if level >= 2:
-            out += [(q, N) for q in range(nq)] + [(q, F) for q in range(nq)] + [(F, q) for q in range(nq)]
+            out += [(q, N) for q in range(nq)] + [(F, q) for q in range(nq)]
         return out
     if k == 3:
         out = [(F, F, F), (F, N, N), (N, F, N), (F, N, F)]
         if level >= 1:
-            out += [(N, F, F), (F, F, N), (N, N, F), (R, R, R), (R, N, N)]
+            out += [(N, F, F), (F, F, N), (R, R, R)]
         return out
     # k >= 4: sampled histories
     return [(F,) * k, (F,) + (N,) * (k - 1)]
@@ -278,12 +278,12 @@ SHRINKS_PER_TASK = 12
 
 def work(task):
     """One task = one world x one first edit: every sequence of the plan that starts with that edit."""
-    wi, first, tier, seed, deadline = task
+    wi, first, tier, seed, deadline, row = task
     t_start = time.process_time()
     world = W.WORLDS[wi]
     rn = Runner(world)
     ne = len(world.edits)
-    rng = random.Random("%s/%s/%s" % (seed, world.name, first))
+    rng = random.Random("%s/%s/%s/%s" % (seed, world.name, first, row))
     cases = []          # (key, nontrivial)
     fails = {}          # tags -> [count, [(what, script, case) ...up to 2]]
     expired = False
@@ -299,15 +299,19 @@ def work(task):
             def tagset(sseq, start):
                 tags = set(world.queries[qi].tags)
                 tags.update(rn.qdyn.get(tuple(sseq[:start]), {qi: ()})[qi])
-                for pos in range(start, len(sseq)):
+                # the edits since the query was last seen correct that changed its correct answer
+                refs = [rn.reference(sseq[:t]) for t in range(start, len(sseq) + 1)]
+                changing = [start + t for t in range(len(refs) - 1)
+                            if refs[t] is not None and refs[t + 1] is not None and refs[t][qi] != refs[t + 1][qi]]
+                for pos in (changing or range(start, len(sseq))):
                     tags.update(rn.edit_tags(sseq, pos))
                 if any(g < gap for g, _ in eerr):
                     tags.add("edit-raised-in-live-model-only")
-                return tags
+                return tags, len(changing)
 
-            tags = tagset(sseq, start)
-            if gap - start != 1:
-                # several edits since the query was last seen correct: minimise the history, once per tag set
+            tags, nchanging = tagset(sseq, start)
+            if nchanging != 1 and gap - start != 1:
+                # several candidate culprits: minimise the history (once per tag set and query)
                 mk = (tuple(sorted(tags)), qi)
                 if mk not in shrunk and len(shrunk) < SHRINKS_PER_TASK:
                     shrunk[mk] = True
@@ -316,7 +320,7 @@ def work(task):
                     again = [b for b in rn.live(sseq, spat)[0] if b[1] == qi]
                     if again:
                         o, r = again[0][2], again[0][3]
-                    tags = tagset(sseq, start)
+                    tags, _ = tagset(sseq, start)
             tags = tuple(sorted(tags))
             ent = fails.setdefault(tags, [0, []])
             ent[0] += 1
@@ -325,7 +329,7 @@ def work(task):
                         % (world.name, rn.describe(sseq, spat), world.queries[qi].expr, o, r))
                 ent[1].append((what, rn.script(sseq, spat, qi), key))
 
-    for k, level, sample in tier_plan(tier):
+    for k, level, sample in [tier_plan(tier)[row]]:
         pats = patterns(k, rn.nq, level)
         if sample is None:
             seqs = ((first,) + rest for rest in itertools.product(range(ne), repeat=k - 1))
@@ -362,7 +366,8 @@ def run(res, tier, seed):
                 "replay model's answer to it changed in between (a held value depended on the edited thing); "
                 "distinct = distinct (world, edit sequence, evaluation pattern)")
     deadline = res.t0 + res.budget_s * 0.9
-    tasks = [(wi, first, tier, seed, deadline) for wi, w in enumerate(worlds) for first in range(len(w.edits))]
+    tasks = [(wi, first, tier, seed, deadline, row) for row in range(len(tier_plan(tier)))
+             for wi, w in enumerate(worlds) for first in range(len(w.edits))]
     nproc = max(1, min(12, (os.cpu_count() or 2) - 2))
     exhaustive = True
     builds = 0; cpu = 0.0; maxcpu = 0.0; nshrunk = 0
@@ -378,8 +383,8 @@ def run(res, tier, seed):
                 res.failure_counts[tags] = res.failure_counts.get(tags, 0) + count - len(examples)
             if expired:
                 exhaustive = False
-            if cases and first == 0:
-                res.sample(cases[0][0])
+            if cases and first == 0 and len(res.samples) < 5:
+                res.sample(cases[len(cases) // 2][0])
     res.exhaustive = exhaustive
     res.notes.append("model builds (live + replay): %d; %d worker processes; worker cpu %.0f s (largest task %.1f s); "
                      "%d failing histories minimised" % (builds, nproc, cpu, maxcpu, nshrunk))
